@@ -110,6 +110,12 @@ def check_case(case, ctx):
     if c1["idx"] != c2["idx"] or c1["n_emit"] != c2["n_emit"]:
         raise Violation("order.index", f"listing order changes the matched index: {c1['idx']} vs {c2['idx']}")
     if not base.close(c1["lp"], c2["lp"], 1e-9):
+        trailing = (c1["keys"] and c1["keys"][-1][-1] != 0) or (c2["keys"] and c2["keys"][-1][-1] != 0)
+        if trailing and case["config"].get("non_emitting_states") and ctx.known(
+                "KF-NE-ORDER", "after an early stop the best path ends in a run of non-emitting states whose content depends on the order "
+                               "in which neighbours are listed"):
+            ctx.record(case, False, classes + ["excluded:KF-NE-ORDER"])
+            return
         raise Violation("order.probability", f"listing order changes the best log-probability: {c1['lp']} vs {c2['lp']}")
     if c1["keys"] != c2["keys"]:
         classes.append("order:tie-different-path")
